@@ -52,7 +52,7 @@ def main():
         if name.endswith("_allow_get"):
             return ("C02", "C04")
         if name.endswith("_can_put"):
-            return ("C09", "C11")
+            return ("C09", "C11", "C15")       # FIRST_AVAILABLE on the output side chooses by this probe
         if name.endswith(("_can_get", "_occupancy")):
             return ("C11",)
         if name == "round_robin_next":
@@ -65,7 +65,7 @@ def main():
     for k, v in tr.get("fragments", {}).items():
         if v.get("status") != "ok" and pid in frag_props(k):
             broken.append("tie B: %s could not be regenerated from %s (%s)" % (k, v.get("source"), v.get("why", "")[:160]))
-    for target, props in (("theories/Edges/TieB.vo", ("C01", "C02", "C04", "C09", "C11")),
+    for target, props in (("theories/Edges/TieB.vo", ("C01", "C02", "C04", "C09", "C11", "C15")),
                           ("theories/Nodes/TieAcc.vo", ("C15", "C17")),
                           ("theories/Edges/TieBelt.vo", ("C12", "C13"))):
         if pid in props:
